@@ -84,6 +84,7 @@ Section ValueInd.
   Hypothesis HList : forall l, Forall P l -> P (VList l).
   Hypothesis HDict : forall kvs, Forall (fun kv => P (snd kv)) kvs -> P (VDict kvs).
   Hypothesis HData : forall c fs, Forall (fun kv => P (snd kv)) fs -> P (VData c fs).
+  Hypothesis HWrap : forall kvs, Forall (fun kv => P (snd kv)) kvs -> P (VWrap kvs).
   Fixpoint value_ind' (v : value) : P v :=
     match v with
     | VNone => HNone | VBool b => HBool b | VInt z => HInt z | VFloat z => HFloat z | VStr s => HStr s
@@ -94,6 +95,8 @@ Section ValueInd.
                              match l with [] => Forall_nil _ | x :: r => Forall_cons _ (value_ind' (snd x)) (go r) end) kvs)
     | VData c fs => HData c fs ((fix go (l : list (str * value)) : Forall (fun kv => P (snd kv)) l :=
                              match l with [] => Forall_nil _ | x :: r => Forall_cons _ (value_ind' (snd x)) (go r) end) fs)
+    | VWrap kvs => HWrap kvs ((fix go (l : list (str * value)) : Forall (fun kv => P (snd kv)) l :=
+                             match l with [] => Forall_nil _ | x :: r => Forall_cons _ (value_ind' (snd x)) (go r) end) kvs)
     end.
 End ValueInd.
 
@@ -163,7 +166,7 @@ Section RoundTrip.
     match v with VList l => map U l | _ => [] end.
   Definition ukd (v : value) : list (str * (ty -> result json)) :=
     match v with
-    | VDict kvs | VData _ kvs => map (fun kv => (fst kv, U (snd kv))) kvs
+    | VDict kvs | VData _ kvs | VWrap kvs => map (fun kv => (fst kv, U (snd kv))) kvs
     | _ => []
     end.
   Lemma U_unfold : forall v T, U v T = Unode v (ukl v) (ukd v) T.
@@ -221,7 +224,7 @@ Section RoundTrip.
       destruct X; try discriminate HX; destruct v; try (exfalso; apply Hv; reflexivity);
         cbn [unstructure_node strip_opt] in *; exact Hu.
     - specialize (Hnn Hv). rewrite S_unfold in *.
-      destruct X as [| | | | | | | | | |X0|X0|X0|c|vals|c]; try discriminate HX.
+      destruct X as [| | | | | | | | | |X0|X0|X0|c|vals|c|X0]; try discriminate HX.
       all: try (destruct j; try (exfalso; apply Hnn; reflexivity);
                 cbn [structure_node structure_str strip_opt] in *; exact Hs).
       + (* TDict *) destruct X0; try discriminate HX;
@@ -351,7 +354,11 @@ Section RoundTrip.
   Theorem encode_decode_core : forall v T, ty_ok T = true -> IOK T v -> Q v T.
   Proof.
     induction v using value_ind'; apply lift_opt; intros T Hno Hok Hi;
-      inversion Hi; subst; try discriminate Hno; try apply Q_any.
+      inversion Hi; subst; try discriminate Hno; try apply Q_any;
+      try (match goal with
+           | H : inject ?j = VWrap _ |- _ => destruct j; discriminate H
+           | H : VWrap _ = inject ?j |- _ => destruct j; discriminate H
+           end).
     - leaf (JBool b).
     - leaf (JInt z).
     - leaf (JFloat z).
@@ -548,6 +555,9 @@ Section History.
         f_equal. apply map_result_Forall2_ext. eapply Forall2_weaken; [|exact Hkd].
         intros a b [Hk Hf]. rewrite Hk, (Hf T). reflexivity.
       - apply data_equiv.
+      - destruct j; try reflexivity.
+        f_equal. apply map_result_Forall2_ext. eapply Forall2_weaken; [|exact Hkd].
+        intros a b [Hk Hf]. rewrite Hk, (Hf T). reflexivity.
     Qed.
 
     Lemma node_equiv : forall T,
@@ -556,7 +566,7 @@ Section History.
     Proof.
       intro T. destruct T; cbn [structure_node]; try apply nonopt_equiv.
       destruct j eqn:Ej; try reflexivity;
-        destruct (strip_opt T) as [| | | | | | | | | |X|X|X|c|vals|c] eqn:Es; try reflexivity;
+        destruct (strip_opt T) as [| | | | | | | | | |X|X|X|c|vals|c|X] eqn:Es; try reflexivity;
         try (rewrite <- Ej; apply nonopt_equiv); try (rewrite <- Ej; apply data_equiv);
         try (destruct X; try reflexivity; rewrite <- Ej; apply nonopt_equiv).
     Qed.
